@@ -45,6 +45,11 @@ type User implements Node & Named {
   blob: Blob
   score: Float
   active: Boolean!
+  firstName: String
+  HTTPCode: Int!
+  class: Int
+  copy: String
+  _hidden: ID
 }
 type Admin implements Node { id: ID! level: Int! perms: [String!]! }
 type Bot implements Node & Named { id: ID! name: String version: String! }
@@ -119,7 +124,7 @@ SUB = {
     "U": [("... on User { id }", ("inner_inline",), ()), ("__typename", ("explicit_typename",), ())],
 }
 LEAVES = {
-    "User": ["id", "name", "kind", "score", "blob", "active"],
+    "User": ["id", "name", "kind", "score", "blob", "active", "firstName", "HTTPCode", "class", "copy", "_hidden"],
     "Admin": ["id", "level", "perms"],
     "Bot": ["id", "name", "version"],
     "Named": ["id", "name"],
